@@ -60,7 +60,7 @@ class Lazy(Machine):
                        "fancy_with_duplicates", "empty_list_op", "landmark_attached_lazily",
                        "per_element_map", "negative_index", "index_out_of_range", "numpy_index",
                        "depth_ge_4", "interleaved_videos", "truncated_read_raises", "mixed_video_instrumented",
-                       "read_folder_backed", "caller_list_mutated_after_use")
+                       "read_folder_backed", "caller_list_mutated_after_use", "fancy_one_shot_iterable")
 
     @classmethod
     def swarm(cls, rng, tier):
@@ -105,7 +105,7 @@ class Lazy(Machine):
             op.update(a=rng.randrange(-1, 9), b=rng.randrange(-1, 9), s=rng.randrange(-4, 5),
                       na=rng.randrange(3), nb=rng.randrange(3), neg=rng.randrange(4))
         elif k == "fancy":
-            op.update(how=rng.randrange(4), seed=rng.getrandbits(16), m=rng.randrange(0, 7))
+            op.update(how=rng.randrange(8), seed=rng.getrandbits(16), m=rng.randrange(0, 7))
         elif k == "repeat":
             op.update(n=rng.randrange(0, 4))
         elif k == "add":
@@ -579,8 +579,20 @@ class Lazy(Machine):
             idx = []
         else:
             idx = [int(v) for v in g.randint(-n, n, size=m)]
-        how = op["how"] % 4
-        if how == 0:
+        how = op["how"] % 8
+        if how == 4:
+            arg = (i for i in list(idx))          # generator: can be iterated only once
+            self.ctx.probe("fancy_one_shot_iterable")
+        elif how == 5:
+            arg = iter(list(idx))
+            self.ctx.probe("fancy_one_shot_iterable")
+        elif how == 6:
+            arg = reversed(list(reversed(idx)))
+            self.ctx.probe("fancy_one_shot_iterable")
+        elif how == 7:
+            arg = map(int, [float(i) for i in idx])
+            self.ctx.probe("fancy_one_shot_iterable")
+        elif how == 0:
             arg = list(idx)
         elif how == 1:
             arg = np.array(idx, dtype=np.int64)
